@@ -38,6 +38,37 @@ func main() {
 	fmt.Sscanf(os.Args[2], "%d", &rounds)
 	failed := false
 
+	// 0. FIRST use of the library in this process is concurrent (lazily initialised tables)
+	var firstDocs [][]byte
+	var firstNames []string
+	_ = filepath.Walk(os.Args[1], func(p string, info os.FileInfo, err error) error {
+		if err == nil && !info.IsDir() && strings.HasSuffix(p, ".jst") && len(firstDocs) < 16 {
+			if b, err := os.ReadFile(p); err == nil {
+				firstDocs = append(firstDocs, b)
+				firstNames = append(firstNames, p)
+			}
+		}
+		return nil
+	})
+	firstRes := make([]string, len(firstDocs))
+	{
+		var wg sync.WaitGroup
+		for i := range firstDocs {
+			wg.Add(1)
+			go func(i int) {
+				defer wg.Done()
+				firstRes[i] = validate(firstNames[i], firstDocs[i])
+			}(i)
+		}
+		wg.Wait()
+	}
+	for i := range firstDocs {
+		if again := validate(firstNames[i], firstDocs[i]); again != firstRes[i] {
+			fmt.Println("FAIL first concurrent use differs from a later solo run for", firstNames[i])
+			failed = true
+		}
+	}
+
 	// 1. collections: concurrent writers and readers
 	for r := 0; r < rounds; r++ {
 		s := &catalog.Servers{}
